@@ -19,7 +19,7 @@ from vlib import c15util as U
 from vlib.common import VERIF, _repo_tag, sha, Reporter, build_tool, run_tool, workdir, MachineryError, pmap, BACKENDS, default_configs, BUILD, REPO
 
 PER_FILE = 50
-FAMS = ["prelude", "a", "b", "c", "d", "e"]
+FAMS = ["prelude", "a", "b", "c", "d", "e", "f"]
 TIMEOUT = 30
 BUDGET = {"quick": 105, "thorough": 900}      # wall seconds after which no new batch is started (exhaustive := false)
 REDUCE_CAP = 120                                 # tool runs per reduced crash group
@@ -88,7 +88,7 @@ def norm_msg(m):
     m = m.strip()
     m = re.sub(r"^internal error: entered unreachable code: ", "", m)
     # identifiers that come from the input: generated names, prelude types, Debug names of the special-method kinds
-    m = re.sub(r"\b(\w+_(m\d+|f)|(m|Fo|Fp|Fq|Ow|It|Er|L|M|T)\d+|Op|OpL|En|St|Nest|SB|OutSt|Zst|FoSl|FoOut|(Add|Sub|Mul|Div)(Assign)?)\b", "ID", m)
+    m = re.sub(r"\b(\w+_(m\d+|f)|(m|Fo|Fp|Fq|Ow|It|Er|L|M|T|Dm|Ds)\d+|Op|OpL|En|St|Nest|SB|OutSt|Zst|FoSl|FoOut|(Add|Sub|Mul|Div)(Assign)?)\b", "ID", m)
     m = re.sub(r"\d+", "N", m)
     return m[:60].rstrip()
 
@@ -211,10 +211,10 @@ def attribute(ctxs, items):
     hit, bad = set(), []
     for c in ctxs:
         parts = c.split("::")
-        if parts[0] in tys:
-            hit |= tys[parts[0]]
-        elif len(parts) >= 2 and (parts[0], parts[1]) in ms:
-            hit |= ms[(parts[0], parts[1])]
+        if len(parts) >= 2 and (parts[0], parts[1]) in ms:
+            hit |= ms[(parts[0], parts[1])]           # a focus method: that item only
+        elif parts[0] in tys:
+            hit |= tys[parts[0]]                      # a fresh type (or one of its helper methods): every item declaring it
         elif len(parts) == 1 and parts[0] in owners and parts[0] != "Op":
             hit |= owners[parts[0]]
         else:
@@ -451,6 +451,21 @@ def run(tier):
                     g["label"] = label
     for iid in reached:
         reached_classes.add(U.item_class(by_id[iid]))
+    # accepted (= reached the backend) items per family / position label and backend
+    fam_reach = {}
+    for iid, d in per_item.items():
+        it = by_id[iid]
+        lab = "%s:%s" % (it.fam, (it.pos or "").split(":")[0])
+        fr = fam_reach.setdefault(lab, {"items": 0})
+        fr["items"] += 1
+        for k, o in d.items():
+            if o in ("ok", "diag", "crash"):
+                bk = k.split("/")[0]
+                fr[bk] = fr.get(bk, 0) + 1
+    for lab, fr in fam_reach.items():
+        for bk in fr:
+            if bk != "items":
+                fr[bk] = fr[bk] // len(by_backend[bk])      # per config variant
 
     # ---- required configuration left out
     one_opaque = "#[diplomat::bridge]\nmod ffi {\n    #[diplomat::opaque]\n    pub struct Op(u8);\n}\n"
@@ -586,6 +601,7 @@ def run(tier):
                   "batches_skipped_by_wall_budget": len(skipped), "128bit_ints": "excluded"},
         "tool_runs": _runs[0],
         "per_backend": dict(("%s/%s" % k, v) for k, v in sorted(counts.items())),
+        "reached_backend_by_family_and_position": fam_reach,
         "missing_config_outcomes": miss_counts,
         "crash_keys": crash_table,
         "panics_during_lowering_not_judged": lowering_panics,
